@@ -252,11 +252,22 @@ func opIndex(alphabet []string, ops []string) []int {
 // the default schedule (no exploration) when the binary is instrumented, and
 // directly otherwise. It returns a clause/detail for deadlocks and panics.
 func controlledCase(ticks int, f func()) (string, string) {
+	cl, det, _ := controlledCaseLeaks(ticks, f)
+	return cl, det
+}
+
+// controlledCaseLeaks additionally returns the threads still alive at the end.
+func controlledCaseLeaks(ticks int, f func()) (string, string, []string) {
 	if !rt.IsControlled() {
 		f()
-		return "", ""
+		return "", "", nil
 	}
 	o := rt.Run(rt.Config{Ticks: ticks}, f)
+	cl, det := outcomeClause(o)
+	return cl, det, o.Leaked
+}
+
+func outcomeClause(o *rt.Outcome) (string, string) {
 	switch {
 	case len(o.Panics) > 0:
 		return "panic: " + firstLine(o.Panics[0]), o.Panics[0]
